@@ -345,8 +345,9 @@ pub(crate) async fn process_inproc_binding_request_event(
   // Validate compatibility before creating any channels.
   if let Err(e) = validate_socket_compatibility(request.connector_socket_type, binder_socket_type) {
     tracing::warn!(binder_handle = binder_core_handle, %connector_uri, "Inproc socket type mismatch: {}", e);
-    let _ = request.reply_tx.send(Err(e.clone()));
-    return Err(e);
+    // The refusal concerns the connector alone; the binder and its other connections carry on.
+    let _ = request.reply_tx.send(Err(e));
+    return Ok(());
   }
 
   // Channel on which the binder receives frames from the connector.
